@@ -76,11 +76,19 @@ pub fn verify<T: AsRef<[u8]>>(
         #[allow(clippy::arithmetic_side_effects)] // path_length_from_key checks
         let height = parent + 1;
 
-        let subtree_size = 1u64 << height;
+        let Some(subtree_size) = u32::try_from(height)
+            .ok()
+            .and_then(|h| 1u64.checked_shl(h))
+        else {
+            break
+        };
         #[allow(clippy::arithmetic_side_effects)] // floor(a / b) * b <= a
         let subtree_start_index = proof_index / subtree_size * subtree_size;
-        #[allow(clippy::arithmetic_side_effects)]
-        let subtree_end_index = subtree_start_index + subtree_size - 1;
+        #[allow(clippy::arithmetic_side_effects)] // subtree_size >= 1
+        let Some(subtree_end_index) = subtree_start_index.checked_add(subtree_size - 1)
+        else {
+            break
+        };
 
         if subtree_end_index >= num_leaves {
             break
